@@ -35,6 +35,7 @@ func init() {
 }
 
 func c06Init() {
+	caseTimeout = 45 * time.Second // four sentinel waits of up to 8 s each on a loaded machine
 	var err error
 	c06Srv, err = busStart("R", "", nil)
 	if err != nil {
@@ -107,7 +108,8 @@ func c06Run(c string) string {
 	// rebroadcast itself is broken: the case says so, and later cases stop waiting seconds for it.
 	lost := false
 	wait := func(subj string) {
-		limit := 3 * time.Second
+		// generous: on a loaded machine a rebroadcast can take seconds; only a rebroadcast that never comes is a finding
+		limit := 8 * time.Second
 		if c06SentinelLost > 2 {
 			limit = 100 * time.Millisecond
 		}
